@@ -213,7 +213,7 @@ pub fn property() -> Property {
     Property {
         id: "C04",
         title: "To-be-MACed bytes are exactly RFC 8152 MAC_structure",
-        rule: "(COSE_Mac | COSE_Mac0) x protected header [decoded from styled wire bytes | built empty | built non-empty] x external AAD x payload (present / absent) with lengths on the CBOR length-class lattice; \
+        rule: "(COSE_Mac | COSE_Mac0) x protected header [decoded from styled wire bytes | built empty | built non-empty] x external AAD x payload (present / absent) with lengths on the CBOR length-class lattice (rarely 2^20..2^25 bytes; one AAD in ten shaped like a structure naming a context and the same protected bytes); whole carriers decoded from styled wire bytes, and messages with one planted fault that the decoder nevertheless accepts (slots read off the wire by the harness' reader); \
                reached through mac_structure_data (both contexts) and the closures of create_tag / try_create_tag / verify_tag; byte equality with an independent deterministic encoder; context separation; \
                refusal (panic, MAC function not called) without a payload; every case is non-trivial; distinct by tuple",
         assumptions: &["reference: own deterministic encoder of the RFC 8152 §6.3 array with the two context strings written in the harness"],
